@@ -221,6 +221,14 @@ var snippets = []string{
 	"class DB<T> { public T $v; } $x = DB<int>(); $y = new DB<string>(); $z = func_num_args();",
 	"class Pr<K, V> { public K $k; } $q = new Pr<int, string>(); $p = Pr<int, string>();",
 	"$r = ($a like A) ? 1 : 2; $s = ($b instanceof A); $t = ($c ?? 1) + ($d);",
+	"trait T { function foo() { return 1; } } trait U { function foo() { return 2; } } class A { use T, U { T::foo insteadof U; U::foo as bar; foo as protected baz; } }",
+	"final class F { public readonly int $p; const K = 1, L = 2; public static $s = [1]; static function mk(): static { return new static(); } function __construct(private int|string $u = 1, protected ?A $v = null) { } }",
+	"enum Suit: string { case H = \"h\"; case S = \"s\"; const D = self::H; function label(): string { return $this->value; } static function f(): self { return self::H; } }",
+	"interface J extends I, K { const C = 1; public function m(int $a, ...$r): ?array; } function &rf(array &$a, callable $c = null): void { global $g; $g = &$a; }",
+	"$v = $$n; $w = ${\"a\" . 1}; $x = $a ?: $b; print $x; $f = strlen(...); $c = static fn() => 1; $d = static function() { return 2; }; exit(0);",
+	"declare(strict_types=1); include \"a.php\"; require_once __DIR__ . \"/b.php\"; goto end; end: echo __LINE__, __FILE__, PHP_EOL;",
+	"foreach ($rows as [$a, [$b, $c]]) { } foreach ($m as $k => list($x, $y)) { } foreach ($q as &$r) { $r = 1; } while ($i): endwhile; if ($a): elseif ($b): else: endif;",
+	"try { f(); } finally { g(); } throw new E(code: 1); $a = new (B::class)(...$args); $o::$p[0]->m()::K; A::{$m}(); $o->{$p . \"x\"} = `ls`;",
 }
 
 // whole lexemes for the pool mode of H_snip: special variables (they parse to dedicated nodes),
